@@ -38,6 +38,13 @@ def run(prog, tier):
     c, adv = prog.method("MarkovChain", "advance")
     obs.append(_trip(prog, c, adv, lambda n, ex, env: R.const(1) if U(n.func) == "self.take_step" else None,
                      adv.args.args[1].arg, "take_step calls"))
+    # ... and every override of it in a concrete chain class carries the same obligation
+    for sub in prog.subclasses("MarkovChain"):
+        if "advance" in sub.methods and len(sub.methods["advance"].args.args) >= 2 and any(
+                isinstance(x, ast.Call) and U(x.func) == "self.take_step" for x in ast.walk(sub.methods["advance"])):
+            f_ = sub.methods["advance"]
+            obs.append(_trip(prog, sub, f_, lambda n, ex, env: R.const(1) if U(n.func) == "self.take_step" else None,
+                             f_.args.args[1].arg, "take_step calls"))
     # ParallelTempering.advance: steps per chain = sum of take_steps arguments
     c, padv = prog.method("ParallelTempering", "advance")
 
@@ -267,6 +274,10 @@ def _owned_randomness(prog):
                         q = ".".join([mi.imports[base.id]] + parts[::-1])
                 if q and q.startswith("numpy.random.") and q.split(".")[-1] not in GLOBAL_RNG_OK and q.count(".") == 2:
                     hits.append((c.module.relpath, n.lineno, f"{c.name}.{fn.name}", ast.unparse(n)[:100], q))
+                # the standard library's module-level generator (random.uniform, random.random ..), os.urandom, secrets: process-wide too
+                elif q and ((q.startswith("random.") and q.count(".") == 1 and q.split(".")[-1] not in ("Random", "SystemRandom", "seed", "getstate", "setstate"))
+                            or q in ("os.urandom",) or q.startswith("secrets.")):
+                    hits.append((c.module.relpath, n.lineno, f"{c.name}.{fn.name}", ast.unparse(n)[:100], q))
         msg = ""
         if hits:
             rel_, line, where, text, q = hits[0]
@@ -290,10 +301,25 @@ def _trip(prog, c, fn, weight, param, what, want=None):
     want = want if want is not None else R.sym(param)
     bad = []
     forms = []
+    def zero_request(guards):
+        """the guards of the path say that the request is 0 (requests are whole numbers >= 0)"""
+        if param is None:
+            return False
+        for pol, t in guards:
+            tt = U(t)
+            if pol == "true" and tt in (f"{param} < 1", f"{param} <= 0", f"{param} == 0", f"not {param}", f"1 > {param}", f"0 >= {param}", f"0 == {param}"):
+                return True
+            if pol == "false" and tt in (f"{param} > 0", f"{param} >= 1", f"{param} != 0", f"{param}", f"0 < {param}", f"1 <= {param}"):
+                return True
+        return False
     for a in alts:
         tot = trip.apply_div_relations(a.total, a.guards)
+        w_ = want
+        if zero_request(a.guards):
+            z_ = {("sym", param): R.const(0)}
+            tot, w_ = anf.subst(tot, z_), anf.subst(want, z_)
         forms.append(str(tot))
-        if not tot.eq(want):
+        if not tot.eq(w_):
             bad.append((a, tot))
     msg = ""
     if bad:
@@ -392,6 +418,28 @@ def _progress(c, fn, step_callee):
     if exits:
         problems.append(f"the timed loop is left through `{U(exits[0])}` at line {exits[0].lineno}, not only by the clock test: the run can "
                         f"stop with part of the requested time unused")
+    # the deadline is the start of the run plus the requested time in seconds: 60 per minute, 3600 per hour, 86400 per day
+    units = {"seconds": 1, "minutes": 60, "hours": 3600, "days": 86400}
+    tp = [a.arg for a in fn.args.args if a.arg in units]
+    if tp and isinstance(t_, ast.Compare) and len(t_.ops) == 1:
+        rz_ = Resolver(fn)
+        sides = [t_.left, t_.comparators[0]]
+        dl = [x for x in sides if not any(isinstance(y, ast.Call) and U(y.func) == "time" for y in ast.walk(x))
+              and not any(isinstance(y, ast.Name) and y.id in test_names and any(
+                  isinstance(s_, ast.Assign) and isinstance(s_.value, ast.Call) and U(s_.value.func) == "time"
+                  and any(isinstance(tt, ast.Name) and tt.id == y.id for tt in s_.targets) for s_ in w.body) for y in ast.walk(x))]
+        if len(dl) != 1:
+            raise AnalysisError(f"run_for: the deadline side of `{U(t_)[:60]}` in {qual(c, fn)} is not identified - not decided")
+        term = rz_.term(dl[0], w)
+        try:
+            from ..term import abstract as _abs, anf_of as _anf
+            dv = _anf(_abs(term, [("time()", "t_start")])[0])
+            for p_ in tp:
+                d_ = anf.diff(dv, ("sym", p_))
+                if not d_.eq(R.const(units[p_])):
+                    problems.append(f"the deadline `{U(term)[:80]}` grows by {d_} seconds per unit of `{p_}`, not by {units[p_]}")
+        except Unsupported as e:
+            raise AnalysisError(f"run_for: deadline `{U(term)[:80]}` outside the algebra ({e})")
     return struct_ob("run_for.progress", qual(c, fn), not problems, "; ".join(problems), rel, w.lineno,
                      detail="lower-bound" if any("lower bound" in p for p in problems) else "",
                      slots={"loop_test": U(w.test)})
